@@ -6,7 +6,8 @@
    (necessary conditions); the property itself is validated by compiling generated documents
    (pv/props/c14.py: real pilota-build in a child process, then `cargo check` of the emitted code).
    Where the faithful model violates a condition, the violation is stated as a [..._refuted] theorem with a
-   witness that is replayed against the implementation (findings F-14b .. F-14e, F-14n). *)
+   witness that is replayed against the implementation (findings F-14b, F-14c, F-14e, F-14r); the witnesses of repaired
+   findings (F-14d, F-14k, F-14n, F-14s) stay as regression statements. *)
 From Coq Require Import String List Bool.
 From PVBld Require Import Generated.Keywords Generated.DeriveTables Names Paths BoxCycle Derive
                           Proofs.NamesP Proofs.PathsP Proofs.BoxCycleP Proofs.DeriveP.
@@ -73,21 +74,24 @@ Print Assumptions C14_names_escape_refuted.
 
 (* ---- relative paths between modules -------------------------------------------------------------------------- *)
 (* the text emitted for a reference from module p1 to the item with path p2, read by rustc inside module p1
-   (emitted names), names exactly that item -- whenever p2 is not a prefix of p1 *)
+   (emitted names), names exactly that item -- for EVERY pair of paths since the repair of finding F-14d (before it: only
+   when p2 was not a prefix of p1; otherwise the text was a run of `super`s, or the raw last segment when p1 = p2) *)
 Theorem C14_related_path :
-  forall p1 p2, is_prefix p2 p1 = false ->
+  forall p1 p2, p2 <> [] ->
     exists r, related_path p1 p2 = Some r /\
               resolve_item (map display p1) r =
                 option_map (fun it => (map display (removelast p2), display it)) (last_opt p2).
 Proof. exact related_path_resolves. Qed.
 Print Assumptions C14_related_path.
 
-(* and it is wrong in the remaining case (finding F-14d): the target's path is a proper prefix of the module path *)
-Theorem C14_related_path_prefix_refuted :
-  exists p1 p2, is_prefix p2 p1 = true /\ p1 <> p2 /\
-    related_path p1 p2 = Some ["super"] /\ resolve_item (map display p1) ["super"] = None.
-Proof. exact related_path_prefix_refuted. Qed.
-Print Assumptions C14_related_path_prefix_refuted.
+(* the witnesses of F-14d as regression cases: target path = current module path; target path a proper prefix of it *)
+Theorem C14_related_path_prefix_fixed :
+  related_path ["a"; "b"] ["a"; "b"] = Some ["super"; "b"] /\
+  resolve_item (map display ["a"; "b"]) ["super"; "b"] = Some (["a"], "b") /\
+  related_path ["a"; "b"; "c"] ["a"; "b"] = Some ["super"; "super"; "b"] /\
+  resolve_item (map display ["a"; "b"; "c"]) ["super"; "super"; "b"] = Some (["a"], "b").
+Proof. exact related_path_prefix_fixed. Qed.
+Print Assumptions C14_related_path_prefix_fixed.
 
 (* ---- Box insertion ----------------------------------------------------------------------------------------------- *)
 (* no by-value cycle passes through a message: every struct field whose target reaches the struct is boxed *)
@@ -110,20 +114,20 @@ Proof. exact box_union_cycle_refuted. Qed.
 Print Assumptions C14_box_union_cycle_refuted.
 
 (* ---- AutoDerivePlugin: who gets #[derive(PartialOrd)] / #[derive(Hash, Eq, Ord)] ------------------------------------------------- *)
-(* Full statement: forall graph order item, derives item -> supports graph item.  The faithful model violates it in two
-   decidable classes (refuted below); outside them, for EVERY item graph (cycles included), every order of the codegen items
-   and both trait bundles: every derived impl type-checks (each field / payload / target type implements the traits, given
-   the set of items that carry the derive), and an item that carries the derive contains, transitively through fields,
-   containers and typedefs, only items made of kinds that support the traits.
-     closed_b               every path names a Message / Enum / NewType of the graph (holds for every resolved document)
-     ws_complete_b          every path PathCollector finds is an edge of the workspace graph, which the downgrade of delayed
-                            items consults (REGENERATED accessor; fails for paths below Arc / BTreeSet / BTreeMap: F-14s)
-     btree_unsupported_b    a btree container that hides an unsupported kind from the predicate closures (F-14k)
-   The kinds the predicate closures reject are REGENERATED from lib.rs. *)
+(* forall graph order item, derives item -> supports graph item: for EVERY item graph (cycles included), every order of the
+   codegen items and both trait bundles, every derived impl type-checks (each field / payload / target type implements the
+   traits, given the set of items that carry the derive), and an item that carries the derive contains, transitively through
+   fields, containers and typedefs, only items made of kinds that support the traits.
+     closed_b     every path names a Message / Enum / NewType of the graph (holds for every resolved document)
+   Two further side conditions were needed before the repairs of findings F-14s (every path PathCollector finds had to be an
+   edge of the workspace graph, which the downgrade of delayed items consults: false below Arc / BTreeSet / BTreeMap) and
+   F-14k (no btree container hiding an unsupported kind from the predicate closures); both hold of every graph now
+   (DeriveP.ws_complete_all, DeriveP.pred_adequate).  The kinds the predicate closures reject, the containers they look
+   through and the graph accessor of the downgrade are REGENERATED. *)
 Theorem C14_derive_sound :
   forall tr g order m,
     run tr g order = Done m ->
-    closed_b g = true -> ws_complete_b g = true -> btree_unsupported_b tr g = false ->
+    closed_b g = true ->
     consistent tr g (derives m) /\ forall d, derives m d = true -> supports tr g d.
 Proof. exact derive_sound. Qed.
 Print Assumptions C14_derive_sound.
@@ -140,38 +144,38 @@ Print Assumptions C14_derive_terminates.
    (REGENERATED tables), and an item is refused only if it contains a rejected kind *)
 Theorem C14_derive_ord_implies_partialord :
   forall g order mp mh,
-    NoDup (map fst g) -> closed_b g = true -> ws_complete_b g = true ->
+    NoDup (map fst g) -> closed_b g = true ->
     run PO g order = Done mp -> run HEO g order = Done mh ->
     forall d, In d order -> derives mh d = true -> derives mp d = true.
 Proof. exact derive_ord_implies_partialord. Qed.
 Print Assumptions C14_derive_ord_implies_partialord.
 
-(* finding F-14k: map<i32, double> with pilota.rust_type = "btree" gets Hash/Eq/Ord *)
-Theorem C14_derive_btree_refuted :
-  exists m, run HEO btree_double [0] = Done m /\
-    closed_b btree_double = true /\ ws_complete_b btree_double = true /\ btree_unsupported_b HEO btree_double = true /\
-    derives m 0 = true /\ ~ consistent HEO btree_double (derives m) /\ ~ supports HEO btree_double 0.
-Proof. exact derive_btree_refuted. Qed.
-Print Assumptions C14_derive_btree_refuted.
+(* the witness of F-14k as a regression case: map<i32, double> with pilota.rust_type = "btree" no longer gets Hash/Eq/Ord *)
+Theorem C14_derive_btree_fixed :
+  decisions HEO btree_double [0] = Done [(0, No)] /\ decisions PO btree_double [0] = Done [(0, Yes)] /\
+  verdict HEO btree_double [0] = Done true.
+Proof. exact derive_btree_fixed. Qed.
+Print Assumptions C14_derive_btree_fixed.
 
-(* finding F-14s: a cycle closed through Arc (or a btree container) whose other member loses the derive later *)
-Theorem C14_derive_delay_edge_refuted :
+(* the witnesses of F-14s as regression cases: a cycle closed through Arc (or a btree container) whose other member loses the
+   derive later -- both members lose it *)
+Theorem C14_derive_cycle_edge_fixed :
   forall g, g = arc_cycle \/ g = btree_cycle ->
-  exists m, run HEO g [0; 1; 2] = Done m /\
-    closed_b g = true /\ btree_unsupported_b HEO g = false /\ ws_complete_b g = false /\
-    derives m 1 = true /\ derives m 0 = false /\ ~ consistent HEO g (derives m) /\ ~ supports HEO g 1.
-Proof. exact derive_delay_edge_refuted. Qed.
-Print Assumptions C14_derive_delay_edge_refuted.
+    decisions HEO g [0; 1; 2] = Done [(0, No); (1, No); (2, No)] /\
+    decisions PO g [0; 1; 2] = Done [(0, Delay); (1, Delay); (2, Yes)] /\
+    verdict HEO g [0; 1; 2] = Done true.
+Proof. exact derive_cycle_edge_fixed. Qed.
+Print Assumptions C14_derive_cycle_edge_fixed.
 
-(* the tables the model reads are the ones it was written against: TyKind members, predicate shapes, the workspace graph in
-   the downgrade, and the text of can_derive / on_item / on_emit / PathCollector / walk_ty / the two graphs (by digest) *)
+(* the tables the model reads are the ones it was written against: TyKind members, the shape of holds_kind, the workspace graph
+   in the downgrade, and the text of holds_kind / can_derive / on_item / on_emit / PathCollector / walk_ty / the two graphs (by digest) *)
 Theorem C14_derive_tables :
   ty_kind_names = (map base_name all_base ++ container_names)%list /\
-  (po_pred_peel = ["Vec"] /\ heo_pred_peel = ["Vec"] /\
+  (pred_through1 = ["Vec"; "BTreeSet"; "Arc"] /\ pred_through2 = ["BTreeMap"] /\
    derive_instances = ["#[derive(PartialOrd)]"; "#[derive(Hash, Eq, Ord)]"]) /\
   downgrade_graph = "workspace_graph" /\
   map fst derive_source_digests =
-    ["can_derive"; "on_item"; "on_emit"; "PathCollector"; "Visitor"; "walk_ty"; "WorkspaceGraph::from_items";
+    ["holds_kind"; "can_derive"; "on_item"; "on_emit"; "PathCollector"; "Visitor"; "walk_ty"; "WorkspaceGraph::from_items";
      "WorkspaceGraph::is_nested"; "TypeGraph::from_items"; "TypeGraph::is_nested"].
 Proof.
   exact (conj ty_kinds_as_modelled (conj pred_shape_as_modelled (conj downgrade_uses_workspace_graph
